@@ -75,6 +75,21 @@ def call(eng, node, st):
 
 def call_starred(eng, node, st):
     """f(*others) where others is a fixed-arity TupV."""
+    # patt.avoids(*list) / patt.contains(*list) on ABSTRACT patterns: the variadic contract
+    # "for every p in the list: p does not occur / occurs in patt" (the fixed-arity instances are
+    # verified from the body of Perm.avoids / contains; the any-arity form is the same statement)
+    if isinstance(node.func, ast.Attribute) and node.func.attr in ("avoids", "contains") and len(node.args) == 1 and isinstance(node.args[0], ast.Starred):
+        base = eng.ev(node.func.value, st)
+        lst = eng.ev(node.args[0].value, st)
+        if isinstance(base, ObjV) and base.cls == "AbstractPatt" and isinstance(lst, (ListV, SeqV)):
+            c = dsl.SymCtx(eng)
+            seq = eng.as_seq(lst, st)
+            t = fresh("av")
+            le = B(c.ghost("LE", seq.at(t).fields["__id__"], base.fields["__id__"]) == 1)
+            eng.rules_used.add("variadic-avoids-on-abstract-patterns")
+            if node.func.attr == "avoids":
+                return BoolV(z3.ForAll([t], z3.Implies(z3.And(t >= 0, t < seq.n), z3.Not(le))))
+            return BoolV(z3.ForAll([t], z3.Implies(z3.And(t >= 0, t < seq.n), le)))
     args = []
     for a in node.args:
         if isinstance(a, ast.Starred):
@@ -230,6 +245,10 @@ def method_call(eng, node, st, preargs=None):
         if mname == "union":
             return SetV(lambda v: z3.Or(B(base.contains(v)), B(other.contains(v))), base.arity)
         return SetV(lambda v: z3.And(B(base.contains(v)), z3.Not(B(other.contains(v)))), base.arity)
+    if isinstance(base, ObjV) and base.cls == "type" and base.fields["name"] == "tuple" and mname == "__new__":
+        content = args[1] if len(args) > 1 else TupV([])
+        seq = eng.as_seq(content, st)
+        return SeqV(seq.n, seq._at, "tuple")
     cls = None
     if isinstance(base, SeqV) and base.kind == "Perm":
         cls = "Perm"
@@ -260,6 +279,8 @@ def b_len(eng, st, a, kw):
         return IntV(v.n)
     if isinstance(v, TupV):
         return IntV(len(v))
+    if isinstance(v, ObjV) and v.cls == "AbstractPatt":
+        return v.fields["__len__"]
     if isinstance(v, ObjV) and "__len__" in v.fields:
         return v.fields["__len__"]  # opaque container whose size is a ghost (spec) value
     if isinstance(v, ObjV) and "pattern" in v.fields:
